@@ -107,3 +107,43 @@ def fit_transform(rng, kind, elements, subtype, extent):
     if subtype == "float32":
         tx = ty = 0 if rng.random() < 0.5 else int(rng.integers(-8, 9))
     return s, tx, ty
+
+
+def hostile_points(elements, subtype, rng=None, fill=None):
+    """PointArray with the given elements whose null slots hold arbitrary (non-zero)
+    coordinates instead of zero bytes: what take(..., allow_fill) / parquet / IPC may
+    legitimately hand the library."""
+    import pyarrow as pa
+    from spatialpandas.geometry import PointArray
+    n = len(elements)
+    vals = np.zeros((n, 2), dtype=subtype)
+    valid = np.ones(n, dtype=bool)
+    for i, e in enumerate(elements):
+        if e is None:
+            valid[i] = False
+            if fill is not None:
+                vals[i] = fill
+            elif rng is not None:
+                vals[i] = rng.integers(-50, 51, size=2)
+            else:
+                vals[i] = (7, -3)
+        else:
+            vals[i] = e
+    if n == 0:
+        return PointArray(vals)
+    bitmap = np.packbits(valid, bitorder="little")
+    width = vals.dtype.itemsize * 2
+    arr = pa.Array.from_buffers(pa.binary(width), n,
+                                [pa.py_buffer(bitmap.tobytes()),
+                                 pa.py_buffer(np.ascontiguousarray(vals).tobytes())])
+    return PointArray(arr, dtype=subtype)
+
+
+def all_forms(kind, elements, subtype, rng, hostile=True):
+    """[(form name, array)] of value-equal arrays of different provenance."""
+    out = []
+    for f in FORMS:
+        out.append((f, build_form(kind, elements, subtype, f, rng)))
+    if kind == "point" and hostile and any(e is None for e in elements):
+        out.append(("hostile-null-slots", hostile_points(elements, subtype, rng)))
+    return out
